@@ -1,5 +1,6 @@
 import Bifrost.Model.Signaling
 import Bifrost.Lemmas.SigSessObs
+import Bifrost.Lemmas.SigWithdraw
 /-!
 C22 — Every session re-open is announced before stale messages are dropped.
 Relay server model `Bifrost.Sig` (code as fixed by "fix: signaling session did not announce …"
@@ -62,5 +63,48 @@ example : ∃ s, Reachable s ∧ ∃ c ∈ s.scalls, c.id = 1 ∧ c.isAwake s = 
   refine ⟨run [.init 1 1 2, .init 2 2 1, .loop 1, .send_ 1 (.opened 2), .init 3 2 1],
     SigSess.reachable_run _ (by decide), ?_⟩
   decide
+
+/-! ### Withdrawals (`ClearMsg`) stored for a peer
+
+`wake_invariant` deliberately says nothing about a stored withdrawal (`recvClear`): the code
+(`handleClearMsg`) stores it WITHOUT waking the receiving call. The statement "a stored
+withdrawal wakes the call it is stored for" is false of the code (refuted below, witness
+replayed on the real relay by engine `sigsrv`, scenario `stale-ack`, on every run; the property
+statements C21/C22 do not require it). What does hold: the call's next write-loop iteration —
+whatever wakes it — transmits the withdrawal, after the epoch announcement and BEFORE any later
+message, so a held withdrawal can only ever reach the message it names. -/
+
+/-- REFUTED: "whenever a withdrawal is stored for a running call, that call is awake or still has
+responses to transmit". -/
+theorem withdrawal_wakes_partner_false :
+    ¬ (∀ s, Reachable s → s.scalls.all (fun c =>
+        c.ended || c.failing || c.isAwake s || !c.outbox.isEmpty || !SigWithdraw.withdrawalPending s c) = true) := by
+  intro h
+  have h2 := h (run SigWithdraw.witness) (SigSess.reachable_run _ (by decide))
+  revert h2
+  decide
+
+/-- PARTIAL (what the code guarantees instead): the next write-loop iteration of an attached call
+whose partner is attached sends exactly: the epoch announcement if it is due, a pending
+acknowledgement, the stored withdrawal, and only then a stored message. -/
+theorem withdrawal_announced_partial (s : State) (c : SCall) (t : Sess) (ours other : Att) (k : Nat)
+    (hc : getSCall s c.id = some c) (ht : getSess s c.sess = some t)
+    (hs : t.sides c.isA = (some ours, some other)) (hcall : ours.call = c.id)
+    (hk : ours.recvClear = some k) (hempty : c.outbox = []) :
+    ∃ c', getSCall (sLoop s c.id) c.id = some c' ∧
+      c'.outbox = (if c.announced ≠ some t.seqno then [Resp.opened t.seqno] else [])
+        ++ (match ours.outAcked with | some a => [Resp.ack a] | none => [])
+        ++ [Resp.clear k]
+        ++ (match ours.recv with | some m => [Resp.recv m] | none => []) := by
+  have hu : (ours.call != c.id) = false := by simp [hcall]
+  simp only [sLoop, hc, ht, hs, hu]
+  simp only [Option.isSome_some, if_true, Option.isNone_some, Bool.false_eq_true, if_false]
+  refine ⟨_, SigSess.getSCall_setSCall_self (s := setSess s _) hc, ?_⟩
+  cases hA : ours.outAcked <;> cases hR : ours.recv <;> simp [hempty, hk]
+
+/-- Non-vacuity: in the witness state the withdrawal is pending for B, nobody is awake, and B's
+next loop iteration transmits exactly the withdrawal. -/
+example : (run SigWithdraw.witness).scalls.any (fun c => SigWithdraw.withdrawalPending (run SigWithdraw.witness) c) = true ∧
+    (getSCall (sLoop (run SigWithdraw.witness) 2) 2).map (·.outbox) = some [Resp.clear 1] := by decide
 
 end Bifrost.Props.C22
